@@ -3,10 +3,12 @@
 // redirects the seams the simulator owns.
 //
 //	import "sync"                 -> import sync "verif/simrt/simsync"
+//	import "math/rand"            -> import rand "verif/simrt/simrand" (package-level functions draw from the run seed)
 //	import "sync/atomic"          -> import atomic "verif/simrt/simatomic" (a scheduling point before every operation)
 //	go f(args)                    -> simrt.Go(func(){ f(args) })   (arguments evaluated first)
 //	time.AfterFunc / time.Sleep   -> simrt.AfterFunc / simrt.Sleep
 //	runtime.SetFinalizer          -> simrt.SetFinalizer (registers nothing)
+//	runtime.Gosched               -> simrt.Gosched (scheduling point; lets simulated time pass when a task spins on it)
 //	channel send/receive/close/select/range -> bracketed by simrt.PreChan()/PostChan()
 //
 // Everything else is copied unchanged. A construct it cannot handle is a build
@@ -35,6 +37,7 @@ const (
 	simrtPath   = "verif/simrt"
 	simsyncPath = "verif/simrt/simsync"
 	simatomPath = "verif/simrt/simatomic"
+	simrandPath = "verif/simrt/simrand"
 )
 
 type report struct {
@@ -44,10 +47,12 @@ type report struct {
 	AfterFuncs   []string       `json:"after_funcs"`
 	Sleeps       []string       `json:"sleeps"`
 	Finalizers   []string       `json:"finalizers"`
+	Goscheds     []string       `json:"goscheds"`
 	ChanOps      []string       `json:"chan_ops"`
 	Selects      []string       `json:"selects"`
 	Ranges       []string       `json:"ranges_maybe_chan"`
 	AtomicUsers  []string       `json:"sync_atomic_importers"`
+	RandUsers    []string       `json:"math_rand_importers"`
 	Unhandled    []string       `json:"unhandled"`
 	OtherImports map[string]int `json:"-"`
 }
@@ -195,6 +200,13 @@ func instrument(path, rel, out string) error {
 			if name != "" {
 				c.rtName = name
 			}
+		case "math/rand":
+			// package-level functions draw from the run's seeded stream; explicit generators stay real
+			im.Path.Value = strconv.Quote(simrandPath)
+			if im.Name == nil {
+				im.Name = ast.NewIdent("rand")
+			}
+			rep.RandUsers = append(rep.RandUsers, rel)
 		case "sync/atomic":
 			// same API, every operation preceded by a scheduling point (real atomics underneath)
 			im.Path.Value = strconv.Quote(simatomPath)
@@ -241,6 +253,10 @@ func instrument(path, rel, out string) error {
 			x.Name = "simrt"
 			c.usesSimrt = true
 			rep.Sleeps = append(rep.Sleeps, c.pos(call))
+		case c.rtName != "" && x.Name == c.rtName && sel.Sel.Name == "Gosched":
+			x.Name = "simrt"
+			c.usesSimrt = true
+			rep.Goscheds = append(rep.Goscheds, c.pos(call))
 		case c.rtName != "" && x.Name == c.rtName && sel.Sel.Name == "SetFinalizer":
 			x.Name = "simrt"
 			c.usesSimrt = true
